@@ -15,6 +15,7 @@ pub static PROP: Prop = Prop {
     rule: "cases = (input, list incl. empty / single / fitted lists, one of the 64 mode subsets, macro flag, FNC1 flag, ECI none or 0..=999999) run through DataMatrixBuilder::encode/encode_eci, encode_str (input read as Latin-1 code points), data::encode_data and data::encodation_plan, in a plain release build and in a build with overflow checks + debug assertions; oracle = no unwind, SymbolListEmpty iff the list is empty, every other refusal TooMuchOrIllegalData; non-trivial = list not default OR mode set not all OR macro-envelope stratum OR length > 1555; distinct by (input, configuration)",
     assumptions: &["ECI numbers above 999999 are outside the documented domain and are not generated", "a hang is detected by the 60 s watchdog and confirmed by an isolated re-run"],
     extra: super::no_extra,
+    fuzz_runs: 400000,
 };
 
 fn classify(what: &str, c: &EncCase, r: Result<Result<(), DataEncodingError>, String>) -> Result<&'static str, String> {
@@ -93,7 +94,7 @@ fn run(ctx: &Arc<Ctx>) {
     }
     ctx.run_enumerated("fixed", "enc", fixed, None, check);
     let o = EncGenOpts { long_weight: if ctx.quick() { 1 } else { 2 }, macro_weight: 3, eci: true, modes64: true, allow_empty_list: true, ..Default::default() };
-    ctx.run_generated("generated", "enc", ctx.cases(60_000, 3_000_000), || g_enc_case(o), check);
+    ctx.run_generated("generated", "enc", ctx.cases(300_000, 4_000_000), || g_enc_case(o), check);
 }
 
 fn replay(_ctx: &Ctx, kind: &str, case: &Value) -> Option<Verdict> {
